@@ -6,8 +6,12 @@
 // CONVERT/ISTYPE pair, all short instruction sequences over an alphabet, all
 // TRY/CATCH/FINALLY/CALL nests to depth 2 with a throw at each position,
 // compound-type programs with aliasing, and programs at the limits
-// (MaxStackSize, MaxItemSize, nesting depths). Before that the model alone
-// has to reproduce a table of hand-curated reference facts.
+// (MaxStackSize, MaxItemSize, nesting depths), and hand-laid-out control flow
+// at the byte level (layout_test.go: every transfer instruction with every
+// target position from before the script to past its end, handler blocks in
+// every order, all short sequences of exception-handling instructions).
+// Before that the model alone has to reproduce a table of hand-curated
+// reference facts.
 package c13
 
 import (
@@ -67,7 +71,11 @@ func runSpec(p prog) *sv.VM {
 		m = sv.New(p.Script)
 	}
 	m.PreGorgon = p.PreGorgon
-	m.Run(specStepLimit)
+	limit := specStepLimit
+	if p.Steps > 0 {
+		limit = p.Steps
+	}
+	m.Run(limit)
 	return m
 }
 
@@ -382,6 +390,8 @@ type prog struct {
 	RV    []int
 	// PreGorgon: run both sides with all hardforks disabled.
 	PreGorgon bool
+	// Steps: the model's step limit for this program (0: specStepLimit).
+	Steps int
 }
 
 // caseRec is what is written to samples and replay files.
@@ -392,6 +402,7 @@ type caseRec struct {
 	Extra     []string `json:"host_scripts_hex,omitempty"`
 	RV        []int    `json:"host_return_counts,omitempty"`
 	PreGorgon bool     `json:"pre_gorgon,omitempty"`
+	Steps     int      `json:"spec_step_limit,omitempty"`
 	Disasm    string   `json:"disasm,omitempty"`
 	Oracle    string   `json:"oracle,omitempty"`
 	Diff      string   `json:"difference,omitempty"`
@@ -463,7 +474,7 @@ func record(p prog, m *sv.VM, a implRes) caseRec {
 	for _, e := range p.Extra {
 		c.Extra = append(c.Extra, hex.EncodeToString(e))
 	}
-	c.RV, c.PreGorgon = p.RV, p.PreGorgon
+	c.RV, c.PreGorgon, c.Steps = p.RV, p.PreGorgon, p.Steps
 	if len(c.Script) > 40000 {
 		c.Script = c.Script[:40000] + "...(truncated; regenerate from key)"
 	}
@@ -494,6 +505,7 @@ func (s *stats) check(p prog) bool {
 	if m.Undet == "step-limit" {
 		// The model does not decide termination; the program is not run.
 		s.noteUndet("step-limit(not run)")
+		s.noteFamilyUndet(p, "step-limit(not run)")
 		return true
 	}
 	a := runImpl(p)
@@ -524,6 +536,7 @@ func (s *stats) check(p prog) bool {
 	}
 	if m.Undet != "" {
 		s.noteUndet(m.Undet)
+		s.noteFamilyUndet(p, m.Undet)
 		// Not part of the oracle: how often the model's reading of the
 		// reference would have differed from the implementation there.
 		if m.State.String() != a.State || (m.State == sv.HALT && sameStacks(m.Result, a.Stack, scriptHashes(p)) != "") {
@@ -565,6 +578,9 @@ func (s *stats) check(p prog) bool {
 		s.stacks.add(a.Canon)
 	} else {
 		s.faults.Add(1)
+	}
+	if strings.HasPrefix(p.Section, "layout-") {
+		s.noteFamily(p, m, a)
 	}
 	if m.Thrown > 0 {
 		s.thrown.Add(1)
@@ -710,6 +726,15 @@ func TestCheck(t *testing.T) {
 		return
 	}
 	secs := sections(r)
+	if only := os.Getenv("VERIF_C13_ONLY"); only != "" { // development aid: sections with this name prefix only
+		var keep []section
+		for _, s := range secs {
+			if strings.HasPrefix(s.name, only) {
+				keep = append(keep, s)
+			}
+		}
+		secs = keep
+	}
 	if pf := os.Getenv("VERIF_C13_PROF"); pf != "" { // development aid
 		f, _ := os.Create(pf)
 		_ = pprof.StartCPUProfile(f)
@@ -775,11 +800,12 @@ func TestCheck(t *testing.T) {
 		"undetermined_by_reason":        undet,
 		"undetermined_where_model_reading_differs_from_impl": undetDiffers,
 		"sections":        secNames,
+		"layout_families": st.familyReport(),
 		"value_set_sizes": fmt.Sprintf("V=%d (unary adds %d typed values), V'=%d, sequence alphabet=%d over %d operand values, compound alphabet=%d over %d aliasing prefixes", len(valuesV()), len(valuesTyped()), len(valuesTernary()), len(seqAlphabet()), len(seqValues(r)), len(compoundAlphabet()), len(compoundPrefixes())),
 	}, []string{
 		"the C# JSON vectors (pkg/vm/testdata/neo-vm) are an empty submodule here: the model is bound to the reference by the cited opcode descriptions / .NET BigInteger documentation and by the self-test facts, not by vectors",
 		"latest hardfork behaviour (vm.New() enables all hardforks): SHL/SHR by 0 yield an Integer (Gorgon, docs/node-configuration.md)",
-		"excluded as undetermined (counted in undetermined_by_reason): control transfer exactly to the end of the script, not-taken jumps / TRY handlers / ENDTRY targets outside the script, ROLL 0 on an otherwise empty stack, HASKEY index >= MaxItemSize, text of engine-raised exception messages, struct comparison at its element/size budget, ASSERTMSG with a Null or non-ASCII message, unreachable cyclic garbage deciding the MaxStackSize limit",
+		"excluded as undetermined (counted in undetermined_by_reason): CALL/CALLA/ENDTRY/ENDFINALLY/handler dispatch exactly to the end of the script (JMP* there is decided: the reference's ExecuteJump rejects position >= Script.Length), programs of the layout families that exceed their model step limit (loops), not-taken jumps / TRY handlers / ENDTRY targets outside the script, ROLL 0 on an otherwise empty stack, HASKEY index >= MaxItemSize, text of engine-raised exception messages, struct comparison at its element/size budget, ASSERTMSG with a Null or non-ASCII message, unreachable cyclic garbage deciding the MaxStackSize limit",
 		"SYSCALL and CALLT have external effects and are only exercised on a bare VM (both sides fault)",
 		"gas is only compared between two runs of the implementation, the model has no notion of gas",
 	})
@@ -809,7 +835,7 @@ func replay(r *vk.Run, st *stats) {
 		fmt.Println("replay file has no complete script (", err, "); regenerate it from its key:", c.Key)
 		os.Exit(3)
 	}
-	p := prog{Section: c.Section, Key: c.Key, Class: "replay", Script: script, RV: c.RV, PreGorgon: c.PreGorgon}
+	p := prog{Section: c.Section, Key: c.Key, Class: "replay", Script: script, RV: c.RV, PreGorgon: c.PreGorgon, Steps: c.Steps}
 	for _, e := range c.Extra {
 		x, _ := hex.DecodeString(e)
 		p.Extra = append(p.Extra, x)
